@@ -24,12 +24,13 @@ use crate::{
     GDResult,
 };
 
-use bzip2_rs::decoder::Decoder;
+use bzip2_rs::DecoderReader;
 
 use crate::buffer::Utf8Decoder;
 use crate::protocols::valve::Packet;
 use byteorder::LittleEndian;
 use std::collections::HashMap;
+use std::io::Read;
 use std::net::SocketAddr;
 
 #[derive(Debug)]
@@ -88,11 +89,6 @@ impl SplitPacket {
 
     fn get_payload(&self) -> GDResult<Vec<u8>> {
         if let Some(decompressed) = self.decompressed {
-            let mut decoder = Decoder::new();
-            decoder
-                .write(&self.payload)
-                .map_err(|e| Decompress.context(e))?;
-
             let decompressed_size = decompressed.0 as usize;
             if decompressed_size > MAX_DECOMPRESSED_SIZE {
                 return Err(Decompress.context(format!(
@@ -100,10 +96,12 @@ impl SplitPacket {
                 )));
             }
 
-            let mut decompressed_payload = vec![0; decompressed_size];
-
-            decoder
-                .read(&mut decompressed_payload)
+            // Decompress at most one byte more than announced, so that a longer stream is detected
+            // without being fully decompressed
+            let mut decompressed_payload = Vec::with_capacity(decompressed_size);
+            DecoderReader::new(self.payload.as_slice())
+                .take(decompressed_size as u64 + 1)
+                .read_to_end(&mut decompressed_payload)
                 .map_err(|e| Decompress.context(e))?;
 
             if decompressed_payload.len() != decompressed_size
